@@ -11,3 +11,16 @@ package packages
 //@   at GetUnpackedHash#1 ghost hashCompared() := specHash
 //@   at SetUnpackedHash#1 assert [C16] arg0 == hashCompared()
 //@   at imagePuller.Pull#1 assert [C16] unpackedHash(pkg) != hashCompared()
+
+//@ props C09
+// Pausing a Package pauses its ObjectDeployment and is hands-off: the pause value written to the ObjectDeployment is
+// the Package's, and no sub-reconciler (unpack, deploy) runs for a paused Package - whether or not its
+// ObjectDeployment exists yet.
+//@ func package-operator.run/internal/controllers/packages.(*GenericPackageController).Reconcile
+//@   sink reconciler.Reconcile#1 requires [C09] !depPaused(pkg)
+//@   loop @reconciler.Reconcile invariant [C09] !depPaused(pkg)
+//@   sink Client.Update#1 requires [C09] depPaused(objDep) == depPaused(pkg)
+// writes to the Package object itself (legacy finalizer, status) are not restricted by the pause
+//@   sink handleDeletion:Client.Update#1 requires [C09] true
+//@   sink RemoveFinalizer:Client.Patch#1 requires [C09] true
+//@   sink updateStatus:SubResourceWriter.Update requires [C09] true
